@@ -233,7 +233,7 @@ H_ENTRY(h_qrmn_p) {
 #define H_IM 3
 #endif
 H_ENTRY(h_interpolate) {
-  std::vector<mpz_ptr> a, b, f; Z q(H_IQ);
+  std::vector<mpz_ptr> a, b, f; Z q; mpz_set_ui(q, H_IQ);
   for (unsigned k = 0; k < H_IM; ++k) {
     mpz_ptr x = new mpz_t(), y = new mpz_t(), z = new mpz_t(); mpz_init(x); mpz_init(y); mpz_init(z);
     vfh_mpz(x, 0, H_IQ); vfh_mpz(y, 0, H_IQ); a.push_back(x); b.push_back(y); f.push_back(z);
@@ -247,7 +247,7 @@ H_ENTRY(h_interpolate) {
     long acc = 0, xv = (long)mpz_get_ui(a[k]);
     for (int d = (int)H_IM - 1; d >= 0; --d) acc = (acc * xv + (long)mpz_get_ui(f[d])) % H_IQ;     // Horner
     vf_assert(acc == (long)mpz_get_ui(b[k]), "the interpolated polynomial reproduces every given point");
-    vf_assert(mpz_sgn(f[k]) >= 0 && mpz_cmp(f[k], q) < 0, "coefficients are reduced residues");
+    vf_assert(mpz_sgn(f[k]) >= 0 && mpz_cmp(f[k], (mpz_ptr)q) < 0, "coefficients are reduced residues");
   }
   H_END();
 }
